@@ -62,6 +62,21 @@ fn intshow(w: &[&str]) -> String {
     }
 }
 
+/// `inteq <a> <b>`: `Int: PartialEq / Hash` on the two numbers (and on values decoded from their encodings): `eq` | `ne`, `sameHash` | `diffHash`
+fn inteq(w: &[&str]) -> String {
+    use std::hash::{Hash, Hasher};
+    let p = |x: &&str| x.parse::<i128>().ok().and_then(|v| minicbor::data::Int::try_from(v).ok());
+    let (a, b) = match (w.first().and_then(p), w.get(1).and_then(p)) { (Some(a), Some(b)) => (a, b), _ => return "bad-op".into() };
+    let h = |i: &minicbor::data::Int| { let mut s = std::collections::hash_map::DefaultHasher::new(); i.hash(&mut s); s.finish() };
+    let da = minicbor::to_vec(a).ok().and_then(|v| minicbor::decode::<minicbor::data::Int>(&v).ok());
+    let db = minicbor::to_vec(b).ok().and_then(|v| minicbor::decode::<minicbor::data::Int>(&v).ok());
+    let eq = a == b;
+    if (b == a) != eq || da.zip(db).map(|(x, y)| x == y) != Some(eq) || da != Some(a) { return "inconsistent".into() }
+    let mut set = std::collections::HashSet::new(); set.insert(a);
+    if set.contains(&b) != eq { return "inconsistent-set".into() }
+    format!("{} {}", if eq { "eq" } else { "ne" }, if h(&a) == h(&b) { "sameHash" } else { "diffHash" })
+}
+
 fn main() {
     watchdog::start();
     std::panic::set_hook(Box::new(|_| {}));
@@ -106,7 +121,7 @@ fn dispatch(w: &[&str]) -> String {
         "sink" => sinkop::run_raw(&w[1..]), "sinkenc" => sinkop::run_enc(&w[1..]), "sinkval" => sinkop::run_val(&w[1..]), "encseq" => sinkop::run_encseq(&w[1..]), "sinkiter" => sinkop::run_iter(&w[1..]), "sinkio" => sinkop::run_sinkio(&w[1..]), "givesup" => sinkop::run_givesup(&w[1..]),
         "display" => dispop::run(&w[1..]),
         "iana" => iana(),
-        "intshow" => intshow(&w[1..]),
+        "intshow" => intshow(&w[1..]), "inteq" => inteq(&w[1..]),
         "cli" => dispop::run_cli(&w[1..]),
         "displayf" => dispop::run_f(&w[1..]),
         "displayat" => dispop::run_at(&w[1..]),
